@@ -401,6 +401,8 @@ class Batch:
         self.ctx, self.tmp = ctx, tmpdir
         self.codec = CodecTable()
         self.n = 0
+        self.raw_files = []          # (cfg key, file content, appendix written) of raw-appended files
+        self.raw_cap = ctx.scale(150, 3000)
 
     # ---- pass 0: cell layout arrays from the spec writer (per data set)
     def layouts(self, dss):
@@ -521,6 +523,8 @@ class Batch:
                 fh.write(content)
             info["path"] = path
             info["appendix"] = bytes(appendix)
+            if cfg["fmt"] == "appraw" and info["groups"]["appended"] and len(self.raw_files) < self.raw_cap:
+                self.raw_files.append((cfg_key(cfg), content, bytes(appendix)))
             # model reader lines
             for st in ("inline", "appended"):
                 g = info["groups"][st]
@@ -987,6 +991,32 @@ def check_shipped(ctx):
                          what="shipped file: implementation vs model reader")
 
 
+# ------------------------------------------------------------------ fallback parser: implementation vs model
+
+def impl_fallback(content: bytes):
+    from fieldcompare.io.vtk._xml_reader import _find_appendix_positions, _determine_encoding
+    try:
+        b, e = _find_appendix_positions(content)
+        return hx(content[b:e]), hx(_determine_encoding(content[b - 100:]).encode("ascii", "replace"))
+    except Exception:  # noqa: BLE001
+        return "E", "-"
+
+
+def check_fallback(ctx, files):
+    """files = [(tag, content, appendix written by the harness | None)]"""
+    reps = ctx.lean([f"c05fallback {hx(c)}" for _, c, _ in files])
+    for (tag, content, app), r in zip(files, reps):
+        impl = impl_fallback(content)
+        model = (r.get("model", "?"), r.get("enc", "?"))
+        # the slice includes the line break the harness puts in front of the closing tag
+        intact = impl[1] == hx(b"raw") and (app is None or impl[0] == hx(app + b"\n"))
+        ctx.case(("fallback", content), nontrivial=True,
+                 tags=["fallback-parser", "fallback-" + ("intact" if intact else "error" if impl[0] == "E" else "cut")])
+        if impl != model:
+            ctx.mismatch({"op": "fallback", "file": tag, "content": content.hex()}, impl, model,
+                         what="_find_appendix_positions/_determine_encoding vs Fc.fallbackAppendix")
+
+
 # ------------------------------------------------------------------ adversarial: raw-appended fallback parser
 
 def adversarial_cases(rng):
@@ -1098,6 +1128,14 @@ def run(ctx):
         # ---- adversarial raw-appended payloads
         adv = adversarial_cases(rng)
         batch.run([(ds, cfg) for ds, cfg, _ in adv], tags_of=lambda d, c: ["adversarial-raw"])
+        # ---- the raw-appended fallback parser on the files generated above and on the shipped raw files
+        files = list(batch.raw_files)
+        d = os.path.join(core.REPO, "test", "vtkfiles")
+        if os.path.isdir(d):
+            for name in sorted(os.listdir(d)):
+                if "raw" in name and os.path.splitext(name)[1] in (".vtu", ".vtp", ".vts"):
+                    files.append(("shipped:" + name, open(os.path.join(d, name), "rb").read(), None))
+        check_fallback(ctx, files)
         # ---- shipped files
         check_shipped(ctx)
         # ---- shrink what was found
